@@ -7,6 +7,8 @@ import XmpModel.LhaFrame
 import XmpModel.ArcfsFrame
 import XmpModel.LzxFrame
 import XmpModel.MmcmpFrame
+import XmpModel.Squeeze
+import XmpModel.LhNew
 /-! Native driver for the C08 correspondence (line protocol, see tools/checks/c08.py).
     Runs the models `Xmp.Md5` and `Xmp.Container` on the cases the harness ran on the real code. -/
 open Xmp Xmp.Container
@@ -53,7 +55,7 @@ def md5Case (data : Bytes) (chunks : List Nat) : IO Unit := do
   IO.println s!"d {toHex (Md5.final s)}"
 
 def constEnv (p : Bytes) : Env :=
-  { crc32 := crc32, crc16 := crc16, inflate := fun _ => some p, arcDec := fun _ _ _ => some p,
+  { crc32 := crc32, crc16 := crc16, inflate := fun _ => some p, arcDec := arcDecSq (fun _ _ _ => some p),
     other := fun _ _ => some p }
 
 /-- names that reach libxmp_exclude_match in the zip walk, with verdicts, up to the selected member -/
@@ -65,6 +67,35 @@ def zipTrace (ms : List Member) : List (Bytes × Bool) :=
       else if excludeMatch m.name then (m.name, true) :: go r
       else [(m.name, false)]
   go ms
+
+/-- code tree in pre-order: `n` = node (two sub-trees follow), `l<sym>` = leaf -/
+partial def parseSqTree : List String → Option (SqTree × List String)
+  | [] => none
+  | t :: rest =>
+    if t == "n" then
+      match parseSqTree rest with
+      | none => none
+      | some (l, rest) =>
+        match parseSqTree rest with
+        | none => none
+        | some (r, rest) => some (.node l r, rest)
+    else if t.startsWith "l" then (String.ofList (t.toList.drop 1)).toNat?.map fun s => (.leaf s, rest)
+    else none
+
+/-- commands of the LHA copy stage: `l<hex byte>` or `c<offset>.<count>`, comma separated -/
+def parseLhToks (s : String) : List LhTok :=
+  (s.splitOn ",").filterMap fun t =>
+    if t.startsWith "l" then some (.lit (UInt8.ofNat (hexVal (t.toList.getD 1 '0') * 16 + hexVal (t.toList.getD 2 '0'))))
+    else if t.startsWith "c" then
+      match (String.ofList (t.toList.drop 1)).splitOn "." with
+      | [o, n] => some (.copy (o.toNat?.getD 0) (n.toNat?.getD 0))
+      | _ => none
+    else none
+
+def showLhToks (ts : List LhTok) : String :=
+  ",".intercalate (ts.map fun t => match t with
+    | .lit b => s!"l{hexDigit (b.toNat / 16)}{hexDigit (b.toNat % 16)}"
+    | .copy o n => s!"c{o}.{n}")
 
 partial def loop (h : IO.FS.Stream) : IO Unit := do
   let line ← h.getLine
@@ -83,6 +114,19 @@ partial def loop (h : IO.FS.Stream) : IO Unit := do
     match unrle90 (n.toNat?.getD 0) (parseHex hex) with
     | some o => IO.println s!"r 1 {toHex o}"
     | none => IO.println "r 0 -"
+  | ["sq", hex, n] =>
+    match unsqueeze (n.toNat?.getD 0) (parseHex hex) with
+    | some o => IO.println s!"r 1 {toHex o}"
+    | none => IO.println "r 0 -"
+  | ["sqenc", tree, hex] =>
+    -- squeeze stream of the Lean encoder: RLE90 tokens of the concrete encoder, Huffman stage for the given code tree
+    match parseSqTree (tree.splitOn ".") with
+    | some (t, []) => IO.println s!"E {toHex (squeeze t (rle90Enc (parseHex hex)))}"
+    | _ => IO.println "E -"
+  | ["lhnew", ring, toks] =>
+    IO.println s!"D {showOut (some (lhNewExpand (ring.toNat?.getD 0) (parseLhToks toks)))}"
+  | ["lhlead", o, hex] =>
+    IO.println s!"T {showLhToks (lhNewEncodeLead (o.toNat?.getD 0) (parseHex hex))}"
   | ["gzip", hexa, hexp] =>
     let a := parseHex hexa
     let p := parseHex hexp
@@ -102,11 +146,11 @@ partial def loop (h : IO.FS.Stream) : IO Unit := do
   | ["arc", hexa, hexp] =>
     let a := parseHex hexa
     let p := parseHex hexp
-    IO.println s!"a {showOut (reopenMem (arcRead crc16 (fun _ _ _ => some p) a))}"
+    IO.println s!"a {showOut (reopenMem (arcRead crc16 (arcDecSq (fun _ _ _ => some p)) a))}"
   | ["pipe", hexa, hexp] =>
     let a := parseHex hexa
     let p := parseHex hexp
-    match decrunch ((((constEnv p).withLha (fun _ _ _ _ => some p)).withArcfs (fun _ _ _ _ => some p)).withLzx crc32From (fun _ _ => some p) |>.withMmcmp mmDec) a with
+    match decrunch ((((constEnv p).withLha (fun _ _ _ _ => some p)).withArcfs (fun m _ c u => arcDecSq (fun _ _ _ => some p) m c u)).withLzx crc32From (fun _ _ => some p) |>.withMmcmp mmDec) a with
     | none => IO.println s!"p {(dispatch a).getD "none"} fail"
     | some s => IO.println s!"p {(dispatch a).getD "none"} ok {s.length} {hex64 (fnv s)} {toHex (Md5.md5sumLoop Gen.Depackers.md5ReadChunk s)}"
   | ["lzw", hex] => IO.println s!"D {showOut (Lzw.unlzw (parseHex hex))}"
@@ -194,8 +238,8 @@ partial def loop (h : IO.FS.Stream) : IO Unit := do
     -- "D dec": the result depends on a decoder that is a parameter of the model (squeeze, crunch, …)
     let p := parseHex hexp
     let a := parseHex hexa
-    let r1 := arcfsRead crc16 (fun _ _ _ _ => some p) a
-    let r2 := arcfsRead crc16 (fun _ _ _ _ => none) a
+    let r1 := arcfsRead crc16 (fun m _ c u => arcDecSq (fun _ _ _ => some p) m c u) a
+    let r2 := arcfsRead crc16 (fun m _ c u => arcDecSq (fun _ _ _ => none) m c u) a
     IO.println (if r1 == r2 then s!"D {showOut r1}" else "D dec")
   | "arcfsenc" :: pad :: ms =>
     let mem := ms.filterMap fun t => match t.splitOn ":" with
